@@ -365,13 +365,20 @@ def run(ctx):
         d = rng.choice([1, 2, 2, 3])
         grids = [sorted(rng.sample(range(-16, 17), rng.randrange(1, 5))) for _ in range(d)]
         grids = [[v / 4.0 for v in g] for g in grids]
+        # integer-dtype observations (int64 / int32 arrays, nested lists of Python ints) on float grids WITHOUT integer points:
+        # the grids must keep their own (float) dtype in the nearest-point search
+        xkind = rng.choice(["float", "float", "float", "int64", "int32", "pyint"]) if it >= 3 else ["int64", "int32", "pyint"][it]
+        if xkind != "float":
+            grids = [sorted(rng.sample([v / 4.0 for v in range(-16, 17) if v % 4], rng.randrange(1, 5))) for _ in range(d)]
         T = rng.choice([2, 3, 200, rng.randrange(2, 201), rng.randrange(2, 30)])
         X = []
         for t in range(T):
             pt = []
             for g in grids:
                 mode = rng.randrange(5)
-                if mode == 0:
+                if xkind != "float":
+                    pt.append(rng.randrange(-5, 6))
+                elif mode == 0:
                     pt.append(rng.choice(g))
                 elif mode == 1 and len(g) > 1:
                     i = rng.randrange(len(g) - 1); pt.append((g[i] + g[i + 1]) / 2)      # exact midpoint: tie -> lower
@@ -384,8 +391,11 @@ def run(ctx):
             X.append(pt)
         X[-1] = list(X[rng.randrange(T - 1)])
         for order in "CF":
-            inp = {"function": "fit_discrete_mc", "X": X, "grids": grids, "order": order}
-            mc = guarded(ctx, inp, lambda: fit_discrete_mc(np.array(X), tuple(np.array(g) for g in grids), order=order))
+            inp = {"function": "fit_discrete_mc", "X": X, "grids": grids, "order": order, "x_dtype": xkind}
+            Xarg = (np.array(X) if xkind == "float" else np.array(X, dtype=np.int64) if xkind == "int64" else np.array(X, dtype=np.int32) if xkind == "int32"
+                    else [[int(v) for v in pt] for pt in X])
+            ctx.count("fit:x_dtype=" + xkind)
+            mc = guarded(ctx, inp, lambda: fit_discrete_mc(Xarg, tuple(np.array(g) for g in grids), order=order))
             if mc is None:
                 continue
             P = np.asarray(mc.P); sv = np.asarray(mc.state_values, float)
